@@ -92,9 +92,23 @@ func runC08(sum *hutil.Summary, tmp string, reps int, seed uint64) {
 		for _, c := range c08Matrix() {
 			jobs = append(jobs, job{c, rep, len(jobs)})
 		}
+		// the audit side failing while the sshd side hands logins over (c08_handoff.go); racy variants twice per round
+		for _, c := range c08HandoffMatrix() {
+			jobs = append(jobs, job{c, 2 * rep, len(jobs)})
+		}
+	}
+	for rep := 0; rep < reps; rep++ { // (at the end: a variant whose daemon stayed up the first time is not run again)
+		for _, c := range c08HandoffMatrix() {
+			if racyVariant(c.cause, c.variant) {
+				jobs = append(jobs, job{c, 2*rep + 1, len(jobs)})
+			}
+		}
 	}
 	results := make([]result, len(jobs))
+	ran := make([]bool, len(jobs))
 	var wg sync.WaitGroup
+	var mu sync.Mutex
+	stillRunning := map[c08Case]bool{} // a daemon that stays up costs the whole bound: once per scenario is enough
 	sem := make(chan struct{}, c08Parallel)
 	for _, j := range jobs {
 		wg.Add(1)
@@ -102,12 +116,31 @@ func runC08(sum *hutil.Summary, tmp string, reps int, seed uint64) {
 		go func(j job) {
 			defer wg.Done()
 			defer func() { <-sem }()
-			results[j.idx] = runC08Scenario(bin, filepath.Join(tmp, fmt.Sprintf("c08-%d", j.idx)), j.c.cause, j.c.variant, j.rep)
+			mu.Lock()
+			skip := stillRunning[j.c]
+			mu.Unlock()
+			if skip {
+				return
+			}
+			res := runC08Scenario(bin, filepath.Join(tmp, fmt.Sprintf("c08-%d", j.idx)), j.c.cause, j.c.variant, j.rep)
+			if res.HarnessErr != "" && isHandoffVariant(j.c.variant) {
+				// the harness' own set-up did not get there (loaded machine): says nothing about the code, once more
+				time.Sleep(200 * time.Millisecond)
+				res = runC08Scenario(bin, filepath.Join(tmp, fmt.Sprintf("c08-%d-again", j.idx)), j.c.cause, j.c.variant, j.rep)
+			}
+			mu.Lock()
+			results[j.idx], ran[j.idx] = res, true
+			if res.FailKey != "" && !res.Returned {
+				stillRunning[j.c] = true
+			}
+			mu.Unlock()
 		}(j)
 	}
 	wg.Wait()
-	for _, r := range results {
-		record(sum, r)
+	for i, r := range results {
+		if ran[i] {
+			record(sum, r)
+		}
 	}
 }
 
@@ -117,6 +150,9 @@ func sshdLine(i int) string {
 
 // runC08Scenario starts the daemon, injects one cause, observes exit.
 func runC08Scenario(bin, dir, cause, variant string, rep int) (r result) {
+	if isHandoffVariant(variant) {
+		return runC08Handoff(bin, dir, cause, variant, rep)
+	}
 	r = result{Prop: "C08", Scenario: cause, Variant: variant, Rep: rep}
 	if err := os.MkdirAll(dir, 0o755); err != nil {
 		r.HarnessErr = err.Error()
